@@ -164,7 +164,7 @@ def _write_if_changed(path, content):
 
 def generate(repo, outdir):
     consts, notes = extract_consts(repo)
-    s = ['/- GENERATED by tools/gen_lean.py from %s -- do not edit; regenerated on every check -/' % repo, 'namespace Lcdb.Generated', '']
+    s = ['/- GENERATED by tools/gen_lean.py from the source tree of chjj/lcdb -- do not edit; regenerated on every check -/', 'namespace Lcdb.Generated', '']
     for k in sorted(consts):
         s.append('def %s : Nat := %d' % (k, consts[k]))
     s.append('')
@@ -174,7 +174,7 @@ def generate(repo, outdir):
     _write_if_changed(os.path.join(outdir, 'Consts.lean'), '\n'.join(s) + '\n')
 
     tabs = extract_crc_tables(repo)
-    s = ['/- GENERATED by tools/gen_lean.py from %s/src/util/crc32c.c -- do not edit -/' % repo, 'namespace Lcdb.Generated', '']
+    s = ['/- GENERATED by tools/gen_lean.py from src/util/crc32c.c -- do not edit -/', 'namespace Lcdb.Generated', '']
     for name, lean in (('byte_ext_table', 'byteExtTable'), ('stride_ext_table_0', 'strideExtTable0'), ('stride_ext_table_1', 'strideExtTable1'),
                        ('stride_ext_table_2', 'strideExtTable2'), ('stride_ext_table_3', 'strideExtTable3')):
         vals = tabs[name]
